@@ -2933,3 +2933,20 @@ package go_clipper2
 //@   assert after p2a.prev#0 [counter-clockwise-runs-are-crossed-over-consistently] p1.prev == p2 && p2.next == p1 && p1a.next == p2a && p2a.prev == p1a
 //@   assert after call:setNewOwner#0 [a-re-joined-ring-gives-up-its-slot-and-takes-the-survivors-index] r.results[old(p2.ownerIdx)] == nil && p2.ownerIdx == old(p1.ownerIdx)
 //@   assert after call:setNewOwner#1 [a-split-off-ring-gets-a-new-slot-of-its-own] p1a.ownerIdx == len(r.results) - 1 && r.results[len(r.results)-1] == p1a
+
+// fixSelfIntersects (C02): an output ring is cut only where two of its edges, one vertex apart, cross properly
+//@ spec properCross(a, b, c, d Point64) bool = ((cross(a, c, d) > 0 && cross(b, c, d) < 0) || (cross(a, c, d) < 0 && cross(b, c, d) > 0)) && ((cross(c, a, b) > 0 && cross(d, a, b) < 0) || (cross(c, a, b) < 0 && cross(d, a, b) > 0))
+//@ func clipperBase.fixSelfIntersects
+//@   props C02 C01 C03 C04 C05 C08 C09 C10 C17 C19
+//@   nosafety
+//@   opaque clipperBase.doSplitOp
+//@   assumes outrec != nil && forallp(q, OutPt, q.next != nil && q.prev != nil && dom(q.pt, 29))
+//@   loop 0 step [a-ring-is-cut-only-at-a-proper-crossing-of-two-of-its-edges] (len(c.outrecList) != old(len(c.outrecList)) || outrec.pts != old(outrec.pts)) ==> properCross(old(op2.prev.pt), old(op2.pt), old(op2.next.pt), old(op2.next.next.pt))
+//@   loop 0 step [without-a-crossing-the-scan-moves-on-one-vertex] !properCross(old(op2.prev.pt), old(op2.pt), old(op2.next.pt), old(op2.next.next.pt)) ==> op2 == old(op2.next)
+
+//@ func setDx
+//@   props C01 C13 C03 C17 C19
+//@   nosafety
+//@   assumes ae != nil && dom(ae.bot, 61) && dom(ae.top, 61)
+//@   ensures [a-level-edge-gets-the-infinite-slope-of-its-heading] ae.bot.Y == ae.top.Y ==> ae.dx == ite(ae.top.X > ae.bot.X, negInf, posInf)
+//@   ensures [nothing-but-the-slope-of-this-edge-changes] ae.bot == old(ae.bot) && ae.top == old(ae.top) && ae.curX == old(ae.curX) && forallp(e, Active, e != ae ==> e.dx == old(e.dx))
